@@ -1832,3 +1832,133 @@ func genPkginfoFields(repo, out string) {
 	}
 	writeIfChanged(filepath.Join(out, "PkginfoFields.v"), b.String())
 }
+
+// ---- deb: the effective signature type (member _gpg<type>): doSign's switch over the method, and the slices of
+// debSign / dpkgSign that compute sigType and refuse it ----
+func genSigType(repo, out string) {
+	f := parseFile(filepath.Join(repo, "deb/deb.go"))
+	fns := map[string]*ast.FuncDecl{}
+	for _, d := range f.Decls {
+		if x, ok := d.(*ast.FuncDecl); ok && x.Body != nil {
+			fns[x.Name.Name] = x
+		}
+	}
+	c := &trCtx{eqSeqb: true}
+	c.sel = func(se *ast.SelectorExpr) string {
+		// info.Deb.Signature.Type / .Method
+		if in, ok := se.X.(*ast.SelectorExpr); ok && in.Sel.Name == "Signature" {
+			switch se.Sel.Name {
+			case "Type":
+				return "typ"
+			case "Method":
+				return "method"
+			}
+		}
+		return ""
+	}
+	slice := func(name string) string {
+		fd := fns[name]
+		if fd == nil {
+			return c.fail("no function %s in deb/deb.go", name)
+		}
+		// statements that define or assign sigType, and ifs over sigType that return (a refusal)
+		var out []string
+		closeN := 0
+		for _, st := range fd.Body.List {
+			switch x := st.(type) {
+			case *ast.AssignStmt:
+				if len(x.Lhs) == 1 && len(x.Rhs) == 1 {
+					if id, ok := x.Lhs[0].(*ast.Ident); ok && id.Name == "sigType" {
+						out = append(out, "let v_sigType := "+c.expr(x.Rhs[0])+" in")
+					}
+				}
+			case *ast.IfStmt:
+				mentions, returns := false, false
+				ast.Inspect(x.Cond, func(n ast.Node) bool {
+					if id, ok := n.(*ast.Ident); ok && id.Name == "sigType" {
+						mentions = true
+					}
+					return true
+				})
+				if len(x.Body.List) > 0 {
+					_, returns = x.Body.List[len(x.Body.List)-1].(*ast.ReturnStmt)
+				}
+				assigns := false
+				for _, v := range assigned(x.Body.List) {
+					if v == "sigType" {
+						assigns = true
+					}
+				}
+				switch {
+				case assigns && x.Init == nil && x.Else == nil && len(x.Body.List) == 1:
+					as := x.Body.List[0].(*ast.AssignStmt)
+					out = append(out, "let v_sigType := if "+c.cond(x.Cond)+" then "+c.expr(as.Rhs[0])+" else v_sigType in")
+				case mentions && returns && x.Init == nil && x.Else == nil:
+					out = append(out, "if "+c.cond(x.Cond)+" then None else (")
+					closeN++
+				case mentions || assigns:
+					return c.fail("%s: a statement about sigType outside the subset", name)
+				}
+			}
+		}
+		if len(out) == 0 {
+			return c.fail("%s computes no sigType", name)
+		}
+		return strings.Join(out, "\n  ") + "\n  Some v_sigType" + strings.Repeat(")", closeN)
+	}
+	deb, dpkg := slice("debSign"), slice("dpkgSign")
+	// doSign: switch info.Deb.Signature.Method { case "dpkg-sig": return dpkgSign(...) default: return debSign(...) }
+	dispatch := ""
+	if fd := fns["doSign"]; fd != nil && len(fd.Body.List) == 1 {
+		if sw, ok := fd.Body.List[0].(*ast.SwitchStmt); ok {
+			tag := c.expr(sw.Tag)
+			def, arms := "", ""
+			for _, st := range sw.Body.List {
+				cc := st.(*ast.CaseClause)
+				callee := ""
+				if len(cc.Body) == 1 {
+					if r, ok := cc.Body[0].(*ast.ReturnStmt); ok && len(r.Results) == 1 {
+						if ce, ok := r.Results[0].(*ast.CallExpr); ok {
+							if id, ok := ce.Fun.(*ast.Ident); ok {
+								callee = map[string]string{"debSign": "src_debsign_type typ", "dpkgSign": "src_dpkgsig_type typ"}[id.Name]
+							}
+						}
+					}
+				}
+				if callee == "" {
+					c.fail("doSign: a case that does not return debSign(...) or dpkgSign(...)")
+					break
+				}
+				if cc.List == nil {
+					def = callee
+					continue
+				}
+				var conds []string
+				for _, e := range cc.List {
+					s, ok := strLit(e)
+					if !ok {
+						c.fail("doSign: case label that is not a literal")
+					}
+					conds = append(conds, "seqb "+tag+" "+coqStr(s))
+				}
+				arms += "if " + strings.Join(conds, " || ") + " then " + callee + " else "
+			}
+			if def == "" {
+				c.fail("doSign: no default case")
+			}
+			dispatch = arms + def
+		}
+	}
+	if dispatch == "" {
+		c.fail("doSign is not one switch over the method")
+	}
+	var b strings.Builder
+	b.WriteString("(* GENERATED from /repo (deb/deb.go: doSign, debSign, dpkgSign) on every run by translators/strfn.go (genSigType) - do not edit *)\n")
+	b.WriteString("From Coq Require Import List String Bool.\nFrom Coq Require Import Strings.Byte.\nFrom NfpmV Require Import Lib.Bytes Model.Content Model.Meta.\nImport ListNotations.\nOpen Scope list_scope.\nOpen Scope bool_scope.\n\n")
+	if c.err != "" {
+		fmt.Fprintf(&b, "(* UNTRANSLATABLE - %s *)\nDefinition src_deb_effective_type (method typ : str) : option str := None.\nDefinition src_deb_effective_type_translated : bool := false.\n", c.err)
+	} else {
+		fmt.Fprintf(&b, "(* debSign: the statements about sigType; None is the refusal (ErrInvalidSignatureType) *)\nDefinition src_debsign_type (typ : str) : option str :=\n  %s.\n\n(* dpkgSign likewise *)\nDefinition src_dpkgsig_type (typ : str) : option str :=\n  %s.\n\n(* doSign *)\nDefinition src_deb_effective_type (method typ : str) : option str :=\n  %s.\nDefinition src_deb_effective_type_translated : bool := true.\n", deb, dpkg, dispatch)
+	}
+	writeIfChanged(filepath.Join(out, "SigType.v"), b.String())
+}
